@@ -52,7 +52,7 @@ func corpus() []piece {
 		{"~S", []val{vList(vInt(1), s("a"), vChr('b'), vNil, vTrue, vSym("sym"), vInts(2, 3), vList())}}, {"~A", nil},
 		{"~C~:C~@C~:@C", []val{vChr('a'), vChr(' '), vChr('a'), vChr(' ')}}, {"~C", []val{s("a")}}, {"~C", []val{vInt(65)}}, {"~C", nil},
 		// ~% ~& ~~ ~T
-		{"~3%|~0%|~2~|~0&|~2&", nil}, {"a~&b~%~&c~2&d", nil}, {"~&x", nil}, {"~%~{~&~A~}", []val{vInts(1)}}, {"~v%|", []val{vInt(2)}},
+		{"~3%|~0%|~2~|~0&|~2&", nil}, {"a~%~2&b", nil}, {"a~%~3&b~%~0&c~%~1&d", nil}, {"~2%~&|", nil}, {"a~&b~%~&c~2&d", nil}, {"~&x", nil}, {"~%~{~&~A~}", []val{vInts(1)}}, {"~v%|", []val{vInt(2)}},
 		{"~#~", []val{vInt(1), vInt(2)}}, {"abc~{~5T~A~}", []val{vInts(1)}}, {"~T|", nil}, {"a~T|", nil}, {"ab~T|", nil}, {"~10,3T|", nil},
 		{"abc~3T|", nil}, {"abc~3,1T|", nil}, {"abc~2,4T|", nil}, {"abc~,8T|", nil}, {"abc~,8@T|", nil}, {"abc~3,4@T|", nil}, {"abc~1,4@T|", nil},
 		{"abc~%~3,4@T|", nil}, {"~@T|", nil}, {"abcde~2,3T|", nil}, {"abc~5,0T|", nil}, {"abc~1,0T|", nil}, {"abc~1,0@T|", nil}, {"x~%ab~4T|", nil},
